@@ -52,8 +52,18 @@ struct cast_channel_fn {
     template <typename SrcChannel, typename DstChannel>
     void operator()(const SrcChannel& src, DstChannel& dst) {
         using dst_value_t = typename channel_traits<DstChannel>::value_type;
-        dst = dst_value_t(src);
+        dst = cast<dst_value_t>(src, std::is_integral<dst_value_t>{});
     }
+private:
+    // integral destination: round to nearest instead of truncating, so that the rounding error of the
+    // floating point weights (their sum can be 1 - 2^-24) cannot push the result below the smallest
+    // pixel that was interpolated (255 * 0.99999994f = 254.99998 used to become 254)
+    template <typename DstValue, typename SrcChannel>
+    static DstValue cast(const SrcChannel& src, std::true_type) {
+        return DstValue(src < SrcChannel(0) ? src - SrcChannel(0.5) : src + SrcChannel(0.5));
+    }
+    template <typename DstValue, typename SrcChannel>
+    static DstValue cast(const SrcChannel& src, std::false_type) { return DstValue(src); }
 };
 
 template <typename SrcPixel, typename DstPixel>
